@@ -231,6 +231,10 @@ def mutate(spec: dict, kind: str, n: int) -> tuple[dict, dict, bool]:
                 variants.append((x, "o", 0, False))
                 variants.append((x, "ft", {"$t": [1, "a"]}, {"$t": [True, "a"]}))
                 variants.append((x, "fs", {"$fs": [1]}, {"$fs": [True]}))
+                # a str-mixin enum member against the plain string of its own character data
+                for _ in range(3):
+                    variants.append((x, "sk", {"$se": "ADD"}, "plus"))
+                    variants.append((x, "sk", {"$se": "SUB"}, "minus"))
         if not variants:
             return a, b, False
         x, fname, va, vb = variants[n % len(variants)]
